@@ -8,6 +8,7 @@ let dispatch (v : t) : t =
   | L (A "c16" :: args) -> Glue_c16.handle args
   | L (A "c02" :: args) -> Glue_c02.handle args
   | L (A "c01" :: args) -> Glue_c01.handle args
+  | L (A "c03" :: args) -> Glue_c03.handle args
   | _ -> raise (Parse_error "unknown property")
 
 let () =
